@@ -272,6 +272,38 @@ def one_configuration(ctx, env, config, part, parts, label=None, products=None):
             continue
         ctx.count("everyday_ratio_spellings")
         spellings(ctx, env, rng, factors, u, same_unit, ParseError)
+    # ---- a long-running process: after hundreds of thousands of other units were built, the units in use still read back
+    # as themselves (thorough tier, one shard: it takes a quarter of a minute)
+    if ctx.tier == "thorough" and part == 0 and cfg_name == "all":
+        keep = []
+        for _ in range(40):
+            f_ = pools.random_factors(rng, max_factors=2, max_exp=3, hostile=0.0, prefix_prob=0.5)
+            try:
+                u_ = mdl.eval_real(pools.factors_term(f_))
+                s_ = str(u_)
+                if Unit.parse(s_) is u_:
+                    keep.append((u_, s_, Q(5, u_)))
+            except Exception:
+                pass
+        meter, second, gram = pools.units["meter"], pools.units["second"], pools.units["gram"]
+        built = 0
+        for a_ in range(1, 90):
+            for b_ in range(-45, 45):
+                for c_ in range(-20, 21):
+                    meter**a_ * second**b_ * gram**c_
+                    built += 1
+        ctx.count("units_built_by_the_long_running_process", built)
+        for u_, s_, q_ in keep:
+            ctx.count("evaluations")
+            ctx.count("units_read_back_after_many_others_were_built")
+            try:
+                v_, q2 = Unit.parse(s_), Q.parse(str(q_))
+            except Exception as e:
+                ctx.violation(f"C13:parse-raised:{type(e).__name__}", f"Unit.parse({s_!r}) after {built} other units were built: {e}", {"str": s_})
+                continue
+            if v_ is not u_ or q2.unit is not u_ or not (q2 == q_):
+                ctx.violation("C13:parses-to-a-different-unit", f"after {built} other units were built, str(unit) = {s_!r} reads back as another object than the unit in use "
+                              f"(quantity equal: {q2 == q_})", {"str": s_})
     for e in ctx.known:
         if e.get("status") == "known":
             ctx.witness(e["key"], ctx.known_hits.get(e["key"], 0) > 0)
